@@ -33,6 +33,21 @@ def gen_cases(tier, seed):
         elif r < 0.85:
             spec['plan']['gate'] = {'match': '.read#', 'phase': 'before', 'policy': 'seeded'}
         cases.append(spec)
+    # sizes at the part-count boundaries (one part and a bit, just under two parts, exact multiples, +-1) with the destination's
+    # write() calls held at a gate, so that writers that CAN be inside write() at the same time are seen there together
+    for i in range(120 if quick else 1200):
+        C = 8
+        T = rng.choice([8, 8, 9, 12, 16])
+        size = rng.choice([C + 1, 2 * C - 1, 2 * C, 2 * C + 1, 3 * C - 1, 3 * C, T, T + 1, T - 1])
+        dst = rng.choice(['path', 'seekable', 'nonseekable', 'fifo'])
+        cfg = dict(multipart_threshold=T, multipart_chunksize=C, io_chunksize=rng.choice([2, 4]), max_request_concurrency=rng.choice([2, 3, 4]),
+                   max_io_queue_size=rng.choice([1, 2, 1000]), max_in_memory_download_chunks=rng.choice([2, 3]))
+        ts = [{'kind': 'download', 'dst': dst, 'size': size}]
+        if rng.random() < 0.3:
+            ts.append({'kind': 'download', 'dst': rng.choice(['path', 'seekable']), 'size': rng.choice([C + 3, 2 * C - 2])})
+        cases.append({'seed': rng.randrange(1 << 30), 'config': cfg, 'transfers': ts, 'family': 'boundary-sizes',
+                      'plan': {'gate': {'match': rng.choice(['/fs:write', ':write', '/s3:GetObject']), 'phase': rng.choice(['before', 'after']),
+                                        'policy': rng.choice(['seeded', 'reverse'])}, 'delay_p': rng.choice([0.0, 0.2])}})
     # contention on the tag semaphores: several stream transfers, a thread preempted at each statement of the semaphores /
     # BoundedExecutor.submit until the others have run as far as they can
     from .. import windows
